@@ -204,7 +204,8 @@ Record answers := {
   a_attest : bool;           (* the host answered 200 to the key attestation *)
 }.
 
-(* hex::decode succeeds (compute_signature inside attest_key's build_request) *)
+(* hex::decode succeeds (checked by loop_poll right after acquire_key; compute_signature inside
+   attest_key's build_request decodes it again) *)
 Definition is_hex_digit (b : N) : bool :=
   ((48 <=? b) && (b <=? 57)) || ((65 <=? b) && (b <=? 70)) || ((97 <=? b) && (b <=? 102)).
 Definition hex_ok (s : bytes) : bool :=
@@ -240,11 +241,11 @@ Definition key_step (d : doc) (a : answers) : key_outcome * list effect :=
       match a_acquire a with
       | None => (KeyFailed, lr ++ [EAcquire])                        (* continue *)
       | Some k =>
-          if negb (a_store a) then (KeyFailed, lr ++ [EAcquire; EStore k])    (* continue *)
+          (* "a key that compute_signature would reject must not be stored, attested or loaded" *)
+          if negb (hex_ok (key_value k)) then (KeyFailed, lr ++ [EAcquire])    (* continue *)
+          else if negb (a_store a) then (KeyFailed, lr ++ [EAcquire; EStore k])    (* continue *)
           else if negb (check_ok k (a_readback a))
           then (KeyFailed, lr ++ [EAcquire; EStore k; EReadBack k])    (* continue *)
-          else if negb (hex_ok (key_value k))
-          then (KeyFailed, lr ++ [EAcquire; EStore k; EReadBack k])    (* attest_key fails before sending *)
           else if negb (a_attest a)
           then (KeyFailed, lr ++ [EAcquire; EStore k; EReadBack k; EAttest k])   (* continue *)
           else (KeySet k, lr ++ [EAcquire; EStore k; EReadBack k; EAttest k; ESetKey k])
